@@ -63,7 +63,9 @@ def run_schedule(rp, bulks, choices, drain=True):
     noop_mod.time = Clock(clock)
     ctl = coop.Controller()
     tds = [[{'uid': 'task.%06d' % u, 'state': 'AGENT_EXECUTING_PENDING',
-             'description': {'executable': '/bin/sleep', 'arguments': [str(d)]}} for u, d in b] for b in bulks]
+             'description': {'executable': '/bin/sleep', 'arguments': [] if d is None else [str(d)]}} for u, d in b] for b in bulks]
+    # (a duration may be missing or no number - `sleep` without arguments, `sleep 1m`, `sleep $DELAY`: legal descriptions,
+    #  such a task is due at once)
     deadline = {}
     try:
         for i, b in enumerate(tds):
@@ -137,7 +139,7 @@ def gen(rng):
     for _ in range(nb):
         b = []
         for _ in range(rng.randint(1, 3)):
-            b.append((uid, rng.choice([0, 0, 1, 2]))); uid += 1
+            b.append((uid, rng.choice([0, 0, 1, 2, 0, 1, None, '1m', '$DELAY']))); uid += 1
         bulks.append(b)
     choices = []
     for _ in range(rng.randint(4, 40)):
